@@ -105,6 +105,22 @@ Section Conv.
     | _ => conv t j
     end.
 
+  (* ---- a single-valued attribute as an entry of the object's dict ----
+     DefaultObjectMapper.to_dict_from_obj: a set feature is left out when
+     SERIALIZE_DEFAULT_VALUES is off and `value == attr.get_default_value()`;
+     load: a key that is absent leaves the feature untouched, it reads as
+     get_default_value().  `veq` is Python's == on the values of the type. *)
+  Variable veq : pyv O -> pyv O -> bool.
+
+  Definition write_entry (sd : bool) (t : etag) (dflt v : pyv O) : option jv :=
+    if negb sd && veq v dflt then None else Some (to_json t v).
+
+  Definition read_entry (t : etag) (dflt : pyv O) (e : option jv) : pyv O :=
+    match e with
+    | None => dflt
+    | Some j => from_json t j
+    end.
+
   (* the value belongs to the data type (None is always accepted) *)
   Definition well_typed (t : etag) (v : pyv O) : Prop :=
     match v, t with
@@ -130,6 +146,8 @@ Arguments to_json {O} to_string t v.
 Arguments conv {O} from_string t j.
 Arguments from_json {O} from_string t j.
 Arguments well_typed {O} t v.
+Arguments write_entry {O} to_string veq sd t dflt v.
+Arguments read_entry {O} from_string t dflt e.
 
 (* ---------- token codec (O := canonical text) ---------- *)
 Definition tag_of (c : Z) : etag :=
@@ -167,9 +185,42 @@ Definition put_jv (j : jv) : list Z :=
   | JBad => [9]
   end.
 
-(* request: tag value -> the JSON value written, then the value read back from it *)
+(* == on the values the codec carries (same type on both sides; an object by its text) *)
+Definition veq_text (a b : pyv str) : bool :=
+  match a, b with
+  | PNone, PNone => true
+  | PInt x, PInt y => x =? y
+  | PFloat x, PFloat y => x =? y
+  | PBool x, PBool y => Bool.eqb x y
+  | PStr x, PStr y => str_eqb x y
+  | PObj x, PObj y => str_eqb x y
+  | _, _ => false
+  end.
+
+(* a value and the rest of the tokens *)
+Definition get_pyv_rest (t : list Z) : pyv str * list Z :=
+  match t with
+  | 1 :: z :: r => (PInt z, r)
+  | 2 :: f :: r => (PFloat f, r)
+  | 3 :: b :: r => (PBool (b =? 1), r)
+  | 4 :: r => let (o, r') := get_ostr r in (PStr (unsome o), r')
+  | 5 :: r => let (o, r') := get_ostr r in (PObj (unsome o), r')
+  | 0 :: r => (PNone, r)
+  | _ => (PRaise, [])
+  end.
+
+(* requests:
+     tag value                  (tag 0..4) -> the JSON value written, then the value read back from it
+     10 tag sd <default> <value>           -> 0 (entry left out) | 1 <json value> ; then the value read back *)
 Definition run_jsonval (t : list Z) : list Z :=
   match t with
+  | 10 :: c :: sd :: r =>
+    let tg := tag_of c in
+    let (d, r1) := get_pyv_rest r in
+    let (v, _) := get_pyv_rest r1 in
+    let e := write_entry (fun s : str => s) veq_text (sd =? 1) tg d v in
+    (match e with None => [0] | Some j => 1 :: put_jv j end)
+    ++ put_pyv (read_entry (fun s : str => Some s) tg d e)
   | c :: r =>
     let tg := tag_of c in
     let j := to_json (fun s : str => s) tg (get_pyv r) in
